@@ -173,22 +173,14 @@ def run(ctx):
         lines = []
         # every run's rows are checked below; protocol traces are validated for a bounded number of runs per
         # configuration (the forward-jump configurations have the largest silent state spaces)
-        cap = (8 if c["NF"] == 2 else 12) if quick else (16 if c["NF"] == 2 else 40)
-        vitems = items[:: max(1, len(items) // cap)][:cap]
-        for r, o in vitems:
-            t = dict(o["trace"])
-            for k in ("mark", "jump1", "jump2"):
-                t.setdefault(k, [])
-            t = dict(mark=t["mark"], jump1=t["jump1"], jump2=t["jump2"], rows=[x for x in o["rows"] if isinstance(x, list)])
-            lines.append(json.dumps(t, separators=(",", ":")))
-        cfg = cfg_text(c, CAPS1, spec="TraceSpec", invs=("NotAllAccepted",), props=())
-        res = ctx.tlc("jumploop", "JumpLoopTrace", "trace.cfg", files={"trace.cfg": cfg, "traces.ndjson": "\n".join(lines) + "\n"},
-                      workers=1, dfs=True, timeout=1500, expect_violation=True, count=False, label="traces " + shape(c))
+        cap = (8 if c["NF"] == 2 else 12) if quick else (10 if c["NF"] == 2 else 24)
+        allv = items[:: max(1, len(items) // cap)][:cap]
+        # one TLC job per chunk of traces: the silent state space of the larger configurations makes a trace cost
+        # up to a minute on a loaded machine, and every job has its own deadline
+        chunk = 12 if quick else 6
         exp = None
-        if res.msgs.get("expected"):
-            exp = Counter()
-            for x in res.msgs["expected"][0]:
-                exp[(x[0], x[1])] += x[2]
+        for k0 in range(0, len(allv), chunk):
+            exp = validate_chunk(ci, c, allv[k0:k0 + chunk]) or exp
         # (c) rows against the iterative definition
         for r, o in items:
             got = Counter((x[0], x[1]) for x in o["rows"] if isinstance(x, list))
@@ -198,9 +190,26 @@ def run(ctx):
                 ctx.diverge("loop result %s travelers (%s)" % (kind, "two jumps" if c["NJ"] == 2 else ("forward jump" if c["NF"] else "one jump")),
                             "the rows returned by a mark/jump traversal differ from the iterative definition",
                             dict(config=c, run=r, expected=sorted(exp.elements()), got=sorted(got.elements()), foreign=foreign[:3]))
+
+    def validate_chunk(ci, c, vitems):
+        lines = []
+        for r, o in vitems:
+            t = dict(o["trace"])
+            for k in ("mark", "jump1", "jump2"):
+                t.setdefault(k, [])
+            t = dict(mark=t["mark"], jump1=t["jump1"], jump2=t["jump2"], rows=[x for x in o["rows"] if isinstance(x, list)])
+            lines.append(json.dumps(t, separators=(",", ":")))
+        cfg = cfg_text(c, CAPS1, spec="TraceSpec", invs=("NotAllAccepted",), props=())
+        res = ctx.tlc("jumploop", "JumpLoopTrace", "trace.cfg", files={"trace.cfg": cfg, "traces.ndjson": "\n".join(lines) + "\n"},
+                      workers=1, dfs=True, timeout=2400, expect_violation=True, count=False, label="traces " + shape(c))
+        exp = None
+        if res.msgs.get("expected"):
+            exp = Counter()
+            for x in res.msgs["expected"][0]:
+                exp[(x[0], x[1])] += x[2]
         if res.violation == "NotAllAccepted":
             ntr[0] += len(vitems)
-            return
+            return exp
         # some trace was rejected: find which ones
         for r, o in vitems:
             t = dict(o["trace"])
@@ -215,6 +224,8 @@ def run(ctx):
                 ctx.diverge("loop protocol trace rejected (%s)" % ("two jumps" if c["NJ"] == 2 else ("forward jump" if c["NF"] else "one jump")),
                             "the recorded mark/jump events of a real traversal are not a behaviour of JumpLoop.tla",
                             dict(config=c, run=r, trace=o["trace"], rows=o["rows"]))
+        return exp
+
     with ThreadPoolExecutor(max_workers=4) as ex:
         list(ex.map(validate, sorted(by_cfg.items())))
     ntr = ntr[0]
